@@ -463,6 +463,16 @@ theorem go_just : ∀ e, Just1 e := by
     simp only [Option.some.injEq, Prod.mk.injEq] at h
     obtain ⟨_, _, rfl⟩ := h
     exact (mark_absurd l1 hd).elim
+  · intro i info idxs args _ exp G Γ s t Γ' s' h hd B hB hΓ
+    obtain ⟨t1, Γ1, s1, h1, l1⟩ := go_le (.slit i info idxs args) exp G Γ s.mark
+    have e : go (.slit i info idxs args) exp G Γ s = go (.slit i info idxs args) exp G Γ s.mark := by
+      cases info with
+      | none => rw [go, go]; rfl
+      | some pr => rw [go, go]; rfl
+    rw [e, h1] at h
+    simp only [Option.some.injEq, Prod.mk.injEq] at h
+    obtain ⟨_, _, rfl⟩ := h
+    exact (mark_absurd l1 hd).elim
   -- arm
   · intro p body ih; exact ih
   -- []
